@@ -317,6 +317,8 @@ func runC18(env *Env) {
 			}
 		}
 	}
+	c18LoopedCatch(env, rep, 0, 4)
+	c18LoopedCatch(env, rep, 20000, map[bool]int{false: 12, true: 120}[env.Thorough()])
 	env.WriteCases(rep, "", "Corr.C18corr", "list nat * list (nat * nat)", items, "c18_mismatches")
 	env.WriteReport(rep)
 }
@@ -410,4 +412,90 @@ func c18Case(ps []c18Proc, flows [][2]string, log []Ev) string {
 		sb = append(sb, fmt.Sprintf("(%d,%d)", x.k, x.i))
 	}
 	return fmt.Sprintf("(%s,[%s])", natList(throwers), strings.Join(sb, ";"))
+}
+
+// c18LoopedCatch: process 0 throws twice (H0, then H0b after task A0) at the catch event C1 of process 1; C1 sits in a
+// loop (C1 -> B1 -> back to C1 while B1 answers again = true). Each throw wakes the catch event once: B1 is requested
+// after the first throw, and again after the second, however long the delivery of the first takes (process 1 is
+// padded with `pad` tasks no token ever reaches: every event is offered to every node).
+func c18LoopedCatch(env *Env, rep *Report, pad, rounds int) {
+	p0 := &Prog{}
+	p0.Node("start", "s0")
+	p0.Node("task", "T0")
+	h := p0.Node("throw", "H0")
+	h.Inner = `<bpmn:messageEventDefinition id="hd0"/>`
+	p0.Node("task", "A0")
+	h2 := p0.Node("throw", "H0b")
+	h2.Inner = `<bpmn:messageEventDefinition id="hd0b"/>`
+	p0.Node("end", "e0")
+	p0.Flow("s0", "T0", "")
+	p0.Flow("T0", "H0", "")
+	p0.Flow("H0", "A0", "")
+	p0.Flow("A0", "H0b", "")
+	p0.Flow("H0b", "e0", "")
+	p1 := &Prog{nflow: 300}
+	p1.Node("start", "s1")
+	p1.Node("xor", "M1")
+	c := p1.Node("catch", "C1")
+	c.Inner = `<bpmn:messageEventDefinition id="cd1" messageRef="m1"/>`
+	b := p1.Node("task", "B1")
+	b.Results = []string{"again"}
+	d := p1.Node("xor", "D1")
+	p1.Node("end", "e1")
+	p1.Flow("s1", "M1", "")
+	p1.Flow("M1", "C1", "")
+	p1.Flow("C1", "B1", "")
+	p1.Flow("B1", "D1", "")
+	p1.Flow("D1", "M1", "again")
+	d.Default = p1.Flow("D1", "e1", "").ID
+	for i := 0; i < pad; i++ {
+		p1.Node("plaintask", fmt.Sprintf("pad%d", i))
+	}
+	xmlText := SetXML([]*Prog{p0, p1}, []bool{true, true}, [][2]string{{"H0", "C1"}, {"H0b", "C1"}}, `<bpmn:message id="m1" name="m1"/>`)
+	for r := 0; r < rounds && !rep.Saturated(); r++ {
+		cs := fmt.Sprintf("two throws at a catch event that sits in a loop, the caught process padded with %d unreached tasks (round %d)", pad, r)
+		env.Current(cs)
+		defs, err := ParseDefs(xmlText)
+		must(err)
+		ctx, cancel := context.WithCancel(context.Background())
+		tr := tracing.NewTracer(ctx)
+		col := NewCollector(tr)
+		eng := bpmn.NewEngine(bpmn.WithEngineContext(ctx))
+		ps, err := eng.NewProcessSet(defs, bpmn.WithContext(ctx), bpmn.WithTracer(tr), bpmn.WithVariables(map[string]any{"again": false}))
+		must(err)
+		must(ps.StartAll(ctx))
+		rep.Evaluations++
+		rep.Nontrivial++
+		rep.Count("looped_catch")
+		problem := ""
+		step := func(task, what string, opts ...bpmn.DoOption) {
+			if problem == "" && !col.Answer(task, tmoStep, opts...) {
+				problem = what
+			}
+		}
+		if !col.WaitUntil(tmoStep, func(l []Ev) bool { return countEv(l, "listening", "C1") >= 1 }) {
+			problem = "the catch event never listened"
+		}
+		step("T0", "T0 was not requested")
+		step("B1", "first throw: the catch event was not woken (B1 not requested)", bpmn.DoWithResults(map[string]any{"again": true}))
+		if problem == "" && !col.WaitUntil(tmoStep, func(l []Ev) bool { return countEv(l, "visit", "C1") >= 2 }) {
+			problem = "the token did not come back to the catch event"
+		}
+		if problem == "" {
+			time.Sleep(time.Duration(r%4) * 2 * time.Millisecond)
+		}
+		step("A0", "A0 was not requested")
+		step("B1", "second throw: the catch event was not woken again (B1 not requested a second time)", bpmn.DoWithResults(map[string]any{"again": false}))
+		if problem == "" {
+			c2, cc := context.WithTimeout(context.Background(), tmoStep)
+			if !ps.WaitUntilComplete(c2) {
+				problem = "all tasks answered, the set did not complete"
+			}
+			cc()
+		}
+		if problem != "" {
+			rep.Violate("C18-message-flow", cs, problem+"; log: "+logString(col.Log()))
+		}
+		cancel()
+	}
 }
